@@ -32,6 +32,7 @@ type ptask struct {
 	depth int
 	ch    chan struct{}
 	steps int
+	rng   uint64 // task-local: decides which fine-grained (library) yields park
 }
 
 type PConfig struct {
@@ -39,6 +40,12 @@ type PConfig struct {
 	MaxSteps int
 	Depth    int
 	EstSteps int
+	// Yields inside the CLI's own file always park. Yields inside library code
+	// (parser, store, ...) park once in LightDiv on average, decided by a
+	// task-local generator so that the decision does not depend on the order in
+	// which tasks reach their yields. 0 = library yields never park.
+	LightDiv  int
+	LightSeed uint64
 }
 
 type PStep struct {
@@ -102,6 +109,7 @@ func enterP() {
 	t := p.byGid[g]
 	if t == nil {
 		t = &ptask{id: len(p.tasks), gid: g, state: stAtYield, site: -1, ch: make(chan struct{})}
+		t.rng = p.cfg.LightSeed ^ (uint64(t.id+1) * 0x9e3779b97f4a7c15)
 		p.tasks = append(p.tasks, t)
 		p.byGid[g] = t
 		t.depth = 1
@@ -126,6 +134,8 @@ func leaveP() {
 	p.mu.Unlock()
 }
 
+var heavySite []bool
+
 func yieldP(site int) {
 	g := curGid()
 	p.mu.Lock()
@@ -133,6 +143,17 @@ func yieldP(site int) {
 	if t == nil {
 		p.mu.Unlock()
 		return
+	}
+	if site >= 0 && site < len(heavySite) && !heavySite[site] {
+		if p.cfg.LightDiv <= 0 {
+			p.mu.Unlock()
+			return
+		}
+		t.rng = t.rng*6364136223846793005 + 1442695040888963407
+		if (t.rng>>33)%uint64(p.cfg.LightDiv) != 0 {
+			p.mu.Unlock()
+			return
+		}
 	}
 	t.state = stAtYield
 	t.site = site
@@ -193,7 +214,7 @@ func isBlocking(reason string) bool {
 // settle waits until every task is parked, exited or blocked, and every
 // announced goroutine has registered. Returns false on a harness timeout.
 func settle() bool {
-	deadline := time.Now().Add(20 * time.Second)
+	deadline := time.Now().Add(90 * time.Second)
 	for round := 0; ; round++ {
 		for i := 0; i < 4; i++ {
 			runtime.Gosched()
@@ -254,7 +275,7 @@ func settle() bool {
 			}
 		}
 		if time.Now().After(deadline) {
-			p.res.Note = "a task neither parked, exited nor blocked within 20s"
+			p.res.Note = "a task neither parked, exited nor blocked within 90s"
 			return false
 		}
 	}
@@ -337,6 +358,10 @@ func RunP(mainFn func(), cfg PConfig) PResult {
 		p.changeAt = append(p.changeAt, draw(est))
 	}
 	p.victim = draw(6)
+	heavySite = make([]bool, len(Sites))
+	for i, s := range Sites {
+		heavySite[i] = len(s) >= 13 && s[:13] == "xsel/xsel.go:"
+	}
 	mode = ModeP
 	go mainFn()
 	// start handshake: wait for task 0 to register
